@@ -19,11 +19,20 @@ var (
 // It caches analysis results for performance.
 type Analyzer struct {
 	mu    sync.RWMutex
-	cache map[uintptr]*ConstructorInfo
+	cache map[cacheKey]*ConstructorInfo
 
 	// Invoker cache for reusing ConstructorInvoker instances
 	invokerMu    sync.RWMutex
 	invokerCache map[uintptr]*ConstructorInvoker
+}
+
+// cacheKey identifies an analysis result. Function values that share a code
+// pointer (closures of one function literal, method values, generic
+// instantiations, reflect.MakeFunc functions) can still differ in type, so the
+// type is part of the key. The analysis itself only depends on the type.
+type cacheKey struct {
+	ptr uintptr
+	typ reflect.Type
 }
 
 // ConstructorInfo contains analyzed information about a constructor function or instance.
@@ -117,7 +126,7 @@ type ParamField struct {
 // New creates a new Analyzer.
 func New() *Analyzer {
 	return &Analyzer{
-		cache:        make(map[uintptr]*ConstructorInfo),
+		cache:        make(map[cacheKey]*ConstructorInfo),
 		invokerCache: make(map[uintptr]*ConstructorInvoker),
 	}
 }
@@ -138,23 +147,23 @@ func (a *Analyzer) Analyze(constructor any) (*ConstructorInfo, error) {
 	typ := reflect.TypeOf(constructor)
 
 	// This ensures different functions with the same signature are cached separately
-	var cacheKey uintptr
+	key := cacheKey{typ: typ}
 	switch {
 	case typ.Kind() == reflect.Func && val.CanAddr():
 		// For functions, use the function pointer as the cache key
-		cacheKey = val.Pointer()
+		key.ptr = val.Pointer()
 	case typ.Kind() == reflect.Func:
 		// For non-addressable functions, use the pointer from Value
-		cacheKey = val.Pointer()
+		key.ptr = val.Pointer()
 	default:
 		// For non-functions, we can still use the type's address as a fallback
 		// Note: This won't differentiate between different instances of the same type
-		cacheKey = reflect.ValueOf(typ).Pointer()
+		key.ptr = reflect.ValueOf(typ).Pointer()
 	}
 
 	// Check cache first
 	a.mu.RLock()
-	if cached, ok := a.cache[cacheKey]; ok {
+	if cached, ok := a.cache[key]; ok {
 		a.mu.RUnlock()
 		return cached, nil
 	}
@@ -171,7 +180,7 @@ func (a *Analyzer) Analyze(constructor any) (*ConstructorInfo, error) {
 		info.InstanceValue = constructor
 		info.Parameters = []ParameterInfo{}
 		info.dependencies = []*Dependency{}
-		return a.cacheAndReturn(cacheKey, info)
+		return a.cacheAndReturn(key, info)
 	}
 
 	// It's a function constructor
@@ -190,7 +199,7 @@ func (a *Analyzer) Analyze(constructor any) (*ConstructorInfo, error) {
 	// Build dependencies
 	info.dependencies = a.buildDependencies(info)
 
-	return a.cacheAndReturn(cacheKey, info)
+	return a.cacheAndReturn(key, info)
 }
 
 // GetInvoker returns a cached ConstructorInvoker or creates a new one.
@@ -539,7 +548,7 @@ func (a *Analyzer) getSliceElemType(t reflect.Type) reflect.Type {
 }
 
 // cacheAndReturn caches the analysis result and returns it.
-func (a *Analyzer) cacheAndReturn(key uintptr, info *ConstructorInfo) (*ConstructorInfo, error) {
+func (a *Analyzer) cacheAndReturn(key cacheKey, info *ConstructorInfo) (*ConstructorInfo, error) {
 	a.mu.Lock()
 	a.cache[key] = info
 	a.mu.Unlock()
@@ -550,7 +559,7 @@ func (a *Analyzer) cacheAndReturn(key uintptr, info *ConstructorInfo) (*Construc
 // Clear clears the analysis cache.
 func (a *Analyzer) Clear() {
 	a.mu.Lock()
-	a.cache = make(map[uintptr]*ConstructorInfo)
+	a.cache = make(map[cacheKey]*ConstructorInfo)
 	a.mu.Unlock()
 }
 
